@@ -32,6 +32,10 @@ class CompError(Exception):
     """evaluation of a component raised: the component does not match."""
 
 
+class Unspecified(Exception):
+    """the documentation does not say what happens here (e.g. a string function on an absent value): the line is not asserted."""
+
+
 class Unmodelled(Exception):
     """the generator produced something the model has no documented rule for (a harness bug)."""
 
@@ -159,6 +163,7 @@ class Interp:
         self.nrecords = 0
         self.last_fired = 0
         self.control_fired = 0
+        self.unknown_lines = set()
 
     # ---------- run machine
     def run(self, rows, offered_set, scan_last, headers=None):
@@ -253,6 +258,9 @@ class Interp:
                 v = True
         except CompError:
             self.errors.append((self.i, k))
+            v = False
+        except Unspecified:
+            self.unknown_lines.add(self.i)
             v = False
         self.votes[k] = bool(v)
         return self.votes[k]
@@ -533,6 +541,205 @@ class Interp:
             # only meaningful left of '->' (handled in when()); as a bare component the vote stands
             pass
         return r
+
+    # ------------------------------------------------------------------ documented core functions (C01)
+    def _present(self, v, what):
+        if v is None or (isinstance(v, str) and v.strip() == ""):
+            raise Unspecified(f"{what} of an absent/empty value")
+        return v
+
+    # comparison: docs/functions/above.md "they implement the > and < operators"; "Comparison ... is attempted in this order: Number,
+    # Date, String"; "A number compared with a stringified number is ... no different than a number and a number"; None/nan -> False
+    def _cmp(self, a, b):
+        if a is None or b is None or is_none(a) or is_none(b):
+            return None
+        if isinstance(a, float) and math.isnan(a) or isinstance(b, float) and math.isnan(b):
+            return None
+        if is_numlike(a) and is_numlike(b):
+            x, y = to_num(a), to_num(b)
+            return (x > y) - (x < y)
+        if is_numlike(a) != is_numlike(b):
+            raise Unspecified("ordering a number against non-numeric text")
+        x, y = str(a).strip(), str(b).strip()
+        if x.lower() != x or y.lower() != y:
+            raise Unspecified("ordering mixed-case text")
+        return (x > y) - (x < y)
+
+    def m_above(self, n, q, a):
+        c = self._cmp(self.value(a[0]), self.value(a[1]))
+        return c is not None and c > 0
+
+    m_gt = m_after = m_above
+
+    def m_below(self, n, q, a):
+        c = self._cmp(self.value(a[0]), self.value(a[1]))
+        return c is not None and c < 0
+
+    m_lt = m_before = m_below
+
+    # docs/functions/between.md
+    def _three(self, a):
+        v, x, y = (self.value(z) for z in a)
+        c1, c2 = self._cmp(v, x), self._cmp(v, y)
+        if c1 is None or c2 is None:
+            return None
+        cxy = self._cmp(x, y)
+        lo_c, hi_c = (c1, c2) if cxy <= 0 else (c2, c1)   # v vs low bound, v vs high bound
+        return lo_c, hi_c
+
+    def m_between(self, n, q, a):
+        r = self._three(a)
+        return r is not None and r[0] > 0 and r[1] < 0
+
+    m_inside = m_between
+
+    def m_from_to(self, n, q, a):
+        r = self._three(a)
+        return r is not None and r[0] >= 0 and r[1] <= 0
+
+    m_range = m_from_to
+
+    def m_beyond(self, n, q, a):
+        r = self._three(a)
+        if r is None:
+            return False
+        if r[0] == 0 or r[1] == 0:
+            raise Unspecified("beyond()/outside() exactly on a bound")
+        return r[0] < 0 or r[1] > 0
+
+    m_outside = m_beyond
+
+    # docs/functions/in.md: string Terms are pipe-delimited lists; other arguments are compared by value
+    def m_in(self, n, q, a):
+        v = self.value(a[0])
+        if v is None:
+            raise Unspecified("in() of an absent value")
+        for x in a[1:]:
+            if x[0] == "t" and isinstance(x[1], str):
+                items = [i.strip() for i in x[1].split("|")]
+                if str(v).strip() in items:
+                    return True
+            else:
+                y = self.value(x)
+                if y is None:
+                    continue
+                if type(y) is not type(v) and not (isinstance(y, str) and isinstance(v, str)):
+                    raise Unspecified("in() across types")
+                if str(y).strip() == str(v).strip():
+                    return True
+        return False
+
+    # docs/functions/empty.md
+    def m_empty(self, n, q, a):
+        v = self.value(a[0])
+        if v is None:
+            return True
+        if isinstance(v, (list, tuple, dict)):
+            return len(v) == 0
+        return str(v).strip() == ""
+
+    def m_exists(self, n, q, a):
+        v = self.value(a[0])
+        if v is None:
+            return False
+        if isinstance(v, float) and math.isnan(v):
+            return False
+        return str(v).strip() != ""
+
+    # strings (docs/functions/string_functions.md)
+    def v_concat(self, n, q, a):
+        return "".join(str(self._present(self.value(x), "concat")) for x in a)
+
+    def v_lower(self, n, q, a):
+        return str(self._present(self.value(a[0]), "lower")).lower()
+
+    def v_upper(self, n, q, a):
+        return str(self._present(self.value(a[0]), "upper")).upper()
+
+    def v_strip(self, n, q, a):
+        return str(self._present(self.value(a[0]), "strip")).strip()
+
+    def v_length(self, n, q, a):
+        return len(str(self._present(self.value(a[0]), "length")))
+
+    def v_substring(self, n, q, a):
+        v = self._present(self.value(a[0]), "substring")
+        k = self.value(a[1])
+        if not isinstance(k, int) or isinstance(k, bool):
+            raise Unspecified("substring() length that is not an int term")
+        if k < 0:
+            raise CompError("substring(): negatives are not allowed")
+        return str(v)[:k]
+
+    def m_starts_with(self, n, q, a):
+        x = self._present(self.value(a[0]), "starts_with")
+        y = self._present(self.value(a[1]), "starts_with")
+        return str(x).strip().startswith(str(y).strip())
+
+    v_starts_with = m_starts_with
+
+    # math: divide "will return nan when divide by 0 is attempted"; mod "upcasts to float and rounds to the hundredths"
+    def v_divide(self, n, q, a):
+        ns = self._nums_strict(a)
+        r = ns[0]
+        for x in ns[1:]:
+            if x == 0 or (isinstance(r, float) and math.isnan(r)):
+                r = float("nan")
+            else:
+                r = r / x
+        return r
+
+    def v_mod(self, n, q, a):
+        ns = self._nums_strict(a)
+        if ns[1] == 0:
+            raise CompError("modulo by zero")
+        return round(math.fmod(ns[0], ns[1]), 2)
+
+    def _nums_strict(self, a):
+        out = []
+        for x in a:
+            v = self.value(x)
+            if is_none(v):
+                raise Unspecified("divide/mod of an absent value")
+            out.append(float(to_num(v)))
+        return out
+
+    def v_int(self, n, q, a):
+        v = self.value(a[0])
+        if is_none(v):
+            return 0
+        x = to_num(v)
+        if isinstance(x, float) and x != int(x):
+            raise Unspecified("int() of a non-integral number")
+        return int(x)
+
+    def m_int(self, n, q, a):
+        self.v_int(n, q, a)
+        return True
+
+    def v_float(self, n, q, a):
+        v = self.value(a[0])
+        if is_none(v):
+            return 0.0
+        return float(to_num(v))
+
+    def m_float(self, n, q, a):
+        self.v_float(n, q, a)
+        return True
+
+    # counting (docs/functions/count.md): bare count() = matches seen so far, counting the current line as a match
+    def v_count(self, n, q, a):
+        if a:
+            return self._count_value(n, q, a)
+        return self.match_count_now() + 1
+
+    def match_count_now(self):
+        return self._mc_at_start
+
+    def m_count(self, n, q, a):
+        if a:
+            self._count_value(n, q, a)
+        return self.neutral()
 
     # validity
     def m_fail(self, n, q, a):
